@@ -434,6 +434,27 @@ pub fn shrink_struct<T: Clone>(
 }
 
 impl Report {
+    /// fold another report (another section of the same property) into this one
+    pub fn merge(&mut self, o: Report) {
+        self.evaluations += o.evaluations;
+        self.nontrivial.extend(o.nontrivial);
+        for (k, v) in o.distribution {
+            *self.distribution.entry(k).or_insert(0) += v;
+        }
+        for s in o.samples {
+            if self.samples.len() < 16 {
+                self.samples.push(s);
+            }
+        }
+        self.failures.extend(o.failures);
+        self.info_disagreements += o.info_disagreements;
+        self.info_samples.extend(o.info_samples);
+        self.exhaustive_spaces.extend(o.exhaustive_spaces);
+        self.traces_validated += o.traces_validated;
+        self.schedules_enumerated += o.schedules_enumerated;
+        self.notes.extend(o.notes);
+        self.rules.extend(o.rules);
+    }
     /// record a structured failure (already shrunk); `req` must replay the case
     pub fn push_fail(&mut self, section: &str, desc: String, req: String, f: Fail, shrunk_from: usize) {
         self.failures.push(Failure {
